@@ -306,7 +306,9 @@ def mc2(tier, *a, **k):
 def c03(res, tier, seed):
     b = build_harness(PKG)
     mc(res, b, "rt-te", BASE_TE, [1, 5, 12, 14, 16, 31, 44, 56, 112], ["rt", "setu"], D(tier, 2, 3), nest_at=18, nest_fields=[1])
-    mc2(tier, res, b, "rt-t3", BASE_T3, [1, 81, 92, 94, 31, 56, 112], ["rt"], D(tier, 2, 3))
+    mc2(tier, res, b, "rt-t3", BASE_T3, [1, 81, 91, 92, 94, 31, 56, 112], ["rt"], D(tier, 2, 3))
+    # implicit-presence scalars of both float widths in every tier: -0.0 is populated (only +0.0 is the zero value), per width
+    mc(res, b, "rt-implicit", BASE_T3, [81, 91, 92], ["rt"], 2)
     mc2(tier, res, b, "rt-t2", BASE_T2, [1, 12, 16, 31, 56, 112], ["rt", "setu"], 2)
     # the repository's own curated decode inputs, continued as histories (quick: a seeded sample of 50)
     tables_hist(res, b, sample=(seed, 50) if tier == "quick" else None)
@@ -342,7 +344,7 @@ def c09(res, tier, seed):
     mc2(tier, res, b, "unk-t2", BASE_T2, [1, 16, 18], ["setu", "rt", "udisc"], 2, nest_at=18, nest_fields=[1])
     # DiscardUnknown on a lazily decoded message: unknown fields inside a still-deferred submessage must not come back on Marshal
     mc(res, b, "unk-lazy", LAZY_BASE, [99], ["uwire", "uwdisc", "rt"], 2, wire_recs=[[154, 6, 3, 160, 31, 7], [154, 6, 2, 8, 1], [160, 31, 1]],
-       max_recs=2, flavs=LAZY_FLAVS[:2] if tier == "quick" else LAZY_FLAVS, laws=["AllWellFormed"])
+       max_recs=3, flavs=LAZY_FLAVS[:2] if tier == "quick" else LAZY_FLAVS, laws=["AllWellFormed"])
     finish(res, b, seed, tier, "mut=8,unmarshal=5,rt=3,marshal=2,merge=1,evo=4")
 
 
@@ -498,6 +500,16 @@ def c17(res, tier, seed):
     # followed by a sibling (F37)
     mc(res, b, "lazy-in-group", "rv2.Top", [2, 3], ["uwire", "uwstrict", "rt"], 2,
        wire_recs=[[19, 10, 2, 8, 1, 10, 2, 16, 2, 20], [24, 5], [19, 16, 1, 20], [19, 10, 2, 16, 2, 20]], max_recs=2, laws=["AllWellFormed"])
+    # chains lazy > lazy > lazy ... of depth 2..5 under recursion limits at, just above and twice the depth: every deferred level must be
+    # decoded with exactly the budget that was left when it was validated (a budget recorded off by one is lost once per level, so
+    # it shows only when the chain is deeper than half the limit)
+    def chain(k):
+        body = [8, 1]
+        for _ in range(k):
+            body = [154, 6, len(body)] + body
+        return body
+    mc(res, b, "lazy-chain", LAZY_BASE, [99], ["uwire", "rt"], 2, nest_at=99, nest_fields=[1], wire_recs=[chain(k) for k in (2, 3, 4, 5)], max_recs=1,
+       wire_limits=(3, 4, 5, 6, 7, 10), flavs=LAZY_FLAVS[:2] if tier == "quick" else LAZY_FLAVS, laws=["AllWellFormed"])
     # merging decodes (lazy then eager, eager then lazy) into one object: found F22
     mc(res, b, "lazy-merge", LAZY_BASE, [99], ["uwire", "uwmerge", "rt"], 3, nobj=2, wire_recs=[LAZY_RECS[1], LAZY_RECS[0], [154, 6, 2, 16, 5]],
        max_recs=1, flavs=LAZY_FLAVS[:2] if tier == "quick" else LAZY_FLAVS, laws=["AllWellFormed"])
